@@ -222,6 +222,11 @@ theorem finishing_moves {s : St} (h : Inv s) (hx : s.exited = none) (hd : s.dpc 
       cases k with
       | zero => exact s_enabled (a := .unlockT) hx (by simp) (by simp [sStep, hsp])
       | succ k => exact s_enabled (a := .time s.now) hx (by simp) (by simp [sStep, hsp])
+    | printing k =>
+      left
+      cases k with
+      | zero => exact s_enabled (a := .time s.now) hx (by simp) (by simp [sStep, hsp])
+      | succ k => exact s_enabled (a := .time s.now) hx (by simp) (by simp [sStep, hsp])
     | fwding k =>
       left
       rcases fwd_or_done s.ts k s.ts.length with hn | ⟨j, hlt, hk, hr, hn⟩
